@@ -20,7 +20,8 @@ def run(ctx):
     }
     rule = ('all quantity types x 3 numeric types: 6 static layout facts each (sizeof = n numbers, alignof, trivially copyable, standard '
             'layout, not polymorphic, trivially destructible), Zero() all +0; BFS with state hashing from an initial state over the operation '
-            'menu {SetValue(v_k), MutableValue() = v_k, per-slot mutators through MutableValue() (Mutable_*/Set_* accessors), copy-assign, '
+            'menu {SetValue(v_k), MutableValue() = v_k, EVERY one-number mutator of the stored vector/tensor through MutableValue() (each Mutable_ab() and Set_ab incl. the mirrored names of a symmetric tensor, each slot of the mutable array: 6/9/24/27 writers), '
+            'its whole-value setters in scalar and array form, the same setters fed with references into the object itself in permuted order (in-place transpose / cyclic shift), copy-assign, '
             'memcpy-out/patch slot/memcpy-in as array of numbers, array-of-4 viewed as numbers} x values {nextafter(1.5), -0, -(1/3)*2^40 in full precision of the numeric type}: to closure '
             '(depth 8) for 1-3 components, depth %d for 6 and 9 components; reference model = std::array of numbers; oracle after every '
             'transition: Value() and raw bytes equal the model (value + sign bit)') % (4 if ctx.tier == 'thorough' else 3)
